@@ -26,4 +26,4 @@ EXCLUDED_MODULES = {"set_const", "render", "render_util", "bvh"}
 
 
 def groups(tier):
-  return [(k.key, schemas.kernel_group(k.key, ("ISOLATION", "SLOT"))) for k in census.all_kernels() if k.module not in EXCLUDED_MODULES]
+  return [(k.key, schemas.kernel_group(k.key, ("ISOLATION", "SLOT", "COVER"))) for k in census.all_kernels() if k.module not in EXCLUDED_MODULES]
